@@ -138,9 +138,15 @@ class FileResponseMixin:
         }
         if download_name or content_type == "application/octet-stream":
             download_name = download_name or os.path.basename(filepath)
+            try:
+                download_name.encode("ascii")
+                fallback_name = download_name
+            except UnicodeEncodeError:
+                # header values must be Latin-1; old clients get the escaped form
+                fallback_name = quote(download_name)
             content_disposition = (
                 "attachment; "
-                f'filename="{download_name}"; '
+                f'filename="{fallback_name}"; '
                 f"filename*=utf-8''{quote(download_name)}"
             )
             headers["content-disposition"] = content_disposition
